@@ -399,7 +399,7 @@ func pbFlags(c *pbCase, fs pbFlagSet) {
 
 func proberCaseCount(e vEnv) int64 {
 	if e.Tier == "thorough" {
-		return 6000000
+		return 20000000
 	}
 	return 150000
 }
